@@ -168,12 +168,13 @@ func intEnv(name string, def int) int {
 func Run(r *ev.Run) {
 	r.Rule = "per decoder target a fixed number of inputs (quick 3000 x weight, thorough 30000 x weight), pure function of (VERIF_SEED, tier, target, chunk) up to the randomness of Acra's own key generation/encryption used to build the valid artefacts; " +
 		"input = valid artefact built with the real constructors, then one construction class: valid | field:<artefact>.<field> set to a boundary value {0,1,2,cur-1,cur+1,0x7f,0x80,0xff,0xfb-0xfe,0x7fff,0x8000,0xffff,2^24-1,2^31-1,2^31,2^32-1,2^63-1,2^63,2^64-1,remaining,remaining+-1} | field2 | trunc | bitflip | random | extend | blindint | fill | cutout/dupseg (text targets: token edits, nesting bombs, nasty bytes, long tokens); " +
+		"target mysql.read-packet.multi-packet: a fixed list of 8 (thorough 24) valid MySQL multi-packet streams (payload of k*(2^24-1)+r bytes followed by one further small packet) synthesised in the child while ReadPacket reads them; the target itself checks, by position in the stream, that the read ends where the payload ends; " +
 		"each input is one evaluation: the decoder is called in a child process under recover(), allocation (runtime /gc/heap/allocs:bytes delta) and CPU time (getrusage) measured; " +
 		"distinct_nontrivial = distinct (target, outcome class in {ok, err:<error class>, panic:<site>:<class>, fatal}, input-construction class) tuples actually observed"
 	r.Assumptions = []string{
 		"the crypto library is replaced by a stand-in offering the documented contract of Themis Secure Cell (Seal) / Secure Message / EC key generation; properties are decided for Acra's code on top of that contract",
 		"decided at the decoder layer (exported entry points called in-process, proxies driven over in-memory connections); live AcraServer/TranslatorService handler targets are added by HandlerLayer when the proxy rig sets it",
-		"allocation bound per call: 64 MiB + 2000 x len(input); CPU bound per call: 10 s for inputs <= 64 KiB (scaled linearly above), confirmed by two isolated re-runs; Redis-backed storages are not driven",
+		"allocation bound per call: 64 MiB + 2000 x len(input); CPU bound per call: 10 s for inputs <= 64 KiB (scaled linearly above), confirmed by two isolated re-runs (multi-packet MySQL streams: 64 MiB + 4 x payload, 120 s); Redis-backed storages are not driven",
 		"panics recovered by AcraServer's per-connection recoverConnection are still reported: the property demands an error or untouched pass-through, and AcraTranslator has no such recovery",
 	}
 	m := &monitor{r: r, stats: map[string]*tstats{}, susKeys: map[string]int{}}
